@@ -178,6 +178,87 @@ def job(a):
     return cnt, npk, bads, acc
 
 
+def mid_instances(scale):
+    """Instances with side lengths from {scale, 2*scale, 4*scale}."""
+    sides = (scale, 2 * scale, 4 * scale)
+    types = [(w, h) for w in sides for h in sides]
+    out = []
+    for (W, H) in ((4 * scale, 2 * scale), (6 * scale, 4 * scale),
+                   (5 * scale, 2 * scale)):
+        ok = [t for t in types
+              if (t[0] <= W and t[1] <= H) or (t[1] <= W and t[0] <= H)]
+        for k in (2, 3):
+            for ms in itertools.combinations_with_replacement(ok, k):
+                rows = []
+                for t in ms:
+                    if rows and rows[-1][:2] == list(t):
+                        rows[-1][2] += 1
+                    else:
+                        rows.append([t[0], t[1], 1])
+                out.append((W, H, rows))
+    return out
+
+
+def mid_job(a):
+    """
+    Mid-size bins: every item of every decoder packing translated to every
+    candidate position (all left / bottom / right / top coordinates occurring
+    in the packing, 0, and the bin ends), in both orientations. Areas here
+    exceed the range of the instance's compact storage type.
+    """
+    from moptipyapps.binpacking2d.packing import Packing
+    from moptipyapps.binpacking2d.packing_space import PackingSpace
+    scale, shard, nshards = a
+    bads = []
+    cnt = 0
+    npk = 0
+    for idx, (W, H, rows) in enumerate(mid_instances(scale)):
+        if idx % nshards != shard:
+            continue
+        inst = C.make_instance(W, H, rows)
+        space = PackingSpace(inst)
+        pk = Packing(inst)
+        rows_inst = [[int(v) for v in r] for r in np.asarray(inst)]
+        n = inst.n_items
+        seen = set()
+        for x in C.signed_perms(rows):
+            for enc in (1, 2):
+                base, k, _ = C.public_decode(inst, enc, x)
+                key = base.tobytes()
+                if key in seen:
+                    continue
+                seen.add(key)
+                npk += 1
+                cnt += check_matrix(bads, space, inst, rows_inst, pk, base,
+                                    k, "decoder packing (mid-size)")
+                xs = sorted({0, W} | {int(v) for v in base[:, 2]}
+                            | {int(v) for v in base[:, 4]})
+                ys = sorted({0, H} | {int(v) for v in base[:, 3]}
+                            | {int(v) for v in base[:, 5]})
+                for i in range(n):
+                    w = int(base[i, 4] - base[i, 2])
+                    h = int(base[i, 5] - base[i, 3])
+                    for (ww, hh) in {(w, h), (h, w)}:
+                        for b in range(1, k + 1):
+                            for x0 in xs:
+                                for y0 in ys:
+                                    m = base.copy()
+                                    m[i, 1] = b
+                                    m[i, 2] = x0
+                                    m[i, 3] = y0
+                                    m[i, 4] = x0 + ww
+                                    m[i, 5] = y0 + hh
+                                    if np.array_equal(m, base):
+                                        continue
+                                    nb = int(m[:, 1].max())
+                                    cnt += check_matrix(
+                                        bads, space, inst, rows_inst, pk, m,
+                                        nb, "item translated (mid-size)")
+                if len(bads) > 10:
+                    return cnt, npk, bads
+    return cnt, npk, bads
+
+
 def full_matrix_job(a):
     """1-item instances: the whole matrix space over the alphabet."""
     from moptipyapps.binpacking2d.packing import Packing
@@ -287,6 +368,22 @@ def run(ctx: Ctx) -> None:
              feasible=fok)
     ctx.log(f"full matrix space of {len(fj)} one-item instances: {fc} "
             f"validations, {fok} feasible")
+    # mid-size bins (areas beyond the compact storage type)
+    scales = (8,) if ctx.quick else (8, 64, 3)
+    mj = [(sc, s_, ctx.jobs) for sc in scales for s_ in range(ctx.jobs)]
+    out = pmap(mid_job, mj, ctx.jobs)
+    mc = mp = 0
+    for (c, n, bads) in out:
+        mc += c
+        mp += n
+        for b in bads:
+            report(ctx, b)
+    cnt += mc
+    npk += mp
+    ctx.part("mid_size_bins_item_translations", scales=list(scales),
+             decoder_packings=mp, validations=mc)
+    ctx.log(f"mid-size bins (side unit {scales}): {mp} decoder packings, "
+            f"{mc} validations of translated items")
     bads = []
     bc = big_bins(bads)
     for b in bads:
